@@ -33,7 +33,8 @@ package client
 //@   at call(response) assert entry: recv == sync.smVal(ref(c.batched), requestID).(*batchCommandsEntry)
 //@   at call(response) assert paired: exists j int :: 0 <= j && j < len(resp.RequestIds) && j < len(responses) && resp.RequestIds[j] == requestID && arg_resp == responses[j]
 
-// Sending a group registers every entry in the pending map under its own request id (the i-th id with the i-th entry)
+// Sending a group registers every entry in the pending map under its own request id (the i-th id with the i-th entry,
+// as the builder paired them when the group was handed over - not as some later rearrangement of one of the lists would)
 // before the batch goes onto the stream, so that the receive loop's lookup by id finds the right caller.
 //@ func (*batchCommandsClient) send
 //@   prop C18
@@ -41,7 +42,7 @@ package client
 //@   requires aligned: grp != nil && grp.req != nil && len(grp.req.RequestIds) == len(grp.entries)
 //@   loop 1 invariant l1: true
 //@   loop 2 invariant l2: grp.req == old(grp.req) && grp.entries == old(grp.entries) && grp.req.RequestIds == old(grp.req.RequestIds)
-//@   at call(Store#3) assert own: exists j int :: 0 <= j && j < len(grp.req.RequestIds) && j < len(grp.entries) && mathint(grp.req.RequestIds[j]) == mathint(arg_key.(uint64)) && arg_value.(*batchCommandsEntry) == grp.entries[j]
+//@   at call(Store#3) assert own: exists j int :: 0 <= j && j < old(len(grp.req.RequestIds)) && j < old(len(grp.entries)) && mathint(old(grp.req.RequestIds[j])) == mathint(arg_key.(uint64)) && arg_value.(*batchCommandsEntry) == old(grp.entries[j])
 
 // Failing one request removes exactly its id from the pending map and hands the error to its entry.
 //@ func (*batchCommandsClient) failRequest
@@ -57,3 +58,11 @@ package client
 //@   may-panic
 //@   loop 1 invariant l1: true
 //@   at call(failRequest) assert own: arg_entry == sync.smVal(ref(c.batched), arg_requestID).(*batchCommandsEntry) && arg_err == err
+
+// One time-out bounds the whole call: the timer that both wait phases (hand-over to the send loop, wait for the
+// response) select on is armed exactly once, with the caller's time-out - it is never re-armed in between.
+//@ func sendBatchRequest
+//@   prop C18
+//@   may-panic
+//@   opaque-callee ToBatchCommandsRequest FromBatchCommandsResponse formatBatchRequestTimeoutReason
+//@   at return assert once: defined(timer) ==> timer.arms == 1 && timer.dur == mathint(timeout)
